@@ -39,14 +39,14 @@ theorem gpt_regions_avoid_bootcode (lss size : Nat) (pmbr : Bool) (hl : 512 ≤ 
     intro a b ha hb
     calc 446 ≤ 1 * 512 := by omega
       _ ≤ a * b := Nat.mul_le_mul ha hb
-  rcases hr with hr | hr | hr | hr | hr
+  rcases hr with (hr | hr | hr | hr) | hr
+  · subst hr; exact hm _ _ (by omega) hl
+  · subst hr; exact hm _ _ (by omega) hl
+  · subst hr; simp only; omega
+  · subst hr; simp only; omega
   · split at hr
     · simp at hr; subst hr; simp
     · simp at hr
-  · subst hr; exact hm _ _ (by omega) hl
-  · subst hr; exact hm _ _ (by omega) hl
-  · subst hr; simp only; omega
-  · subst hr; simp only; omega
 
 /-- GPT: with first usable LBA = 2 + arraySectors and last usable LBA = last − arraySectors − 1
     (what `initTable` computes), no region overlaps the usable area that holds partition data.
@@ -61,15 +61,15 @@ theorem gpt_regions_avoid_usable (lss size : Nat) (pmbr : Bool) (hl : 512 ≤ ls
   simp only [gptRegions, List.mem_append, List.mem_cons, List.not_mem_nil, or_false] at hr
   have h2 : (2 + gptArrayBytes / lss) * lss = 2 * lss + gptArrayBytes := by
     rw [Nat.add_mul, hdiv]
-  rcases hr with hr | hr | hr | hr | hr
-  · split at hr
-    · simp at hr; subst hr; left; rw [h2]; simp only; omega
-    · simp at hr
+  rcases hr with (hr | hr | hr | hr) | hr
   · subst hr; right; simp only; omega
   · subst hr; right; simp only
     apply Nat.mul_le_mul_right; omega
   · subst hr; left; rw [h2]; simp only; omega
   · subst hr; left; rw [h2]; simp only; omega
+  · split at hr
+    · simp at hr; subst hr; left; rw [h2]; simp only; omega
+    · simp at hr
 
 /-- GPT: every region lies inside the device -/
 theorem gpt_regions_inside_device (lss size : Nat) (pmbr : Bool) (hl : 512 ≤ lss)
@@ -83,7 +83,8 @@ theorem gpt_regions_inside_device (lss size : Nat) (pmbr : Bool) (hl : 512 ≤ l
   have key : ∀ k : Nat, k ≤ size / lss → k * lss ≤ size := by
     intro k hk
     exact Nat.le_trans (Nat.mul_le_mul_right lss hk) hsz
-  rcases hr with hr | hr | hr | hr | hr
+  rcases hr with (hr | hr | hr | hr) | hr
+  rotate_left 4
   · split at hr
     · simp at hr; subst hr; simp only
       have := key 1 (by omega); omega
@@ -143,6 +144,6 @@ theorem block_inside (bs blocks size b : Nat) (hfit : blocks * bs ≤ size) (hb 
 example : 2 * (gptArrayBytes / 512) + 3 ≤ 204800 / 512 ∧ gptArrayBytes / 512 * 512 = gptArrayBytes := by decide
 example : gptArrayBytes / 4096 * 4096 = gptArrayBytes := by decide
 example : gptRegions 512 (100 * 512) true =
-    [⟨446, 66⟩, ⟨(99 - 32) * 512, 16384⟩, ⟨99 * 512, 512⟩, ⟨1024, 16384⟩, ⟨512, 512⟩] := by decide
+    [⟨(99 - 32) * 512, 16384⟩, ⟨99 * 512, 512⟩, ⟨1024, 16384⟩, ⟨512, 512⟩, ⟨446, 66⟩] := by decide
 
 end Diskfs.Ranges.C03
